@@ -360,3 +360,85 @@ def run(check):
     else:
       r_a.violate('router and aggregator disagree on the rules', ar.key, None, 'the aggregation-aware router does not use the '
                   'RuleManager singleton / get_aggregate_metric that the aggregator uses', construct='RuleManager singleton')
+  rule_condition_is_pattern(check, cx, check.rule('R-C16-condition', 1, 'a pattern rule matches exactly what re.compile(<configured pattern>, re.I).search matches'))
+  rule_parser_verbatim(check, cx, check.rule('R-C16-parser-verbatim', 1, 'relay-rules option values are taken as written (default ConfigParser syntax)'))
+
+
+def rule_condition_is_pattern(check, cx, rule):
+  """the condition of a pattern rule IS the search of the configured pattern, compiled case-insensitively as upstream does:
+  `re.compile(parser.get(section, 'pattern'), re.I).search` on every path - not a hand-written fast path for 'simple' patterns
+  beside it (a case-sensitive startswith() silently drops re.I for exactly those patterns)."""
+  from ..rulelib import resolve_copies
+  lr = cx.fn('carbon.relayrules', 'loadRelayRules')
+  calls = [c for c in walk_no_nested(lr.node, include_self=False) if isinstance(c, ast.Call) and dotted(c.func) == 'RelayRule']
+  n = 0
+  for c in calls:
+    cond = ([kw.value for kw in c.keywords if kw.arg == 'condition'] or list(c.args[:1]) or [None])[0]
+    if cond is None:
+      continue
+    srcs = resolve_copies(lr, cond)
+    if all(isinstance(s, ast.Lambda) and isinstance(s.body, ast.Constant) and s.body.value is True for s in srcs) or \
+       all(isinstance(s, ast.Name) for s in srcs):
+      continue            # the default rule (judged by R-C16-file-order)
+    n += 1
+    bad = None
+    for s in srcs:
+      if not (isinstance(s, ast.Attribute) and s.attr == 'search'):
+        bad = (s, 'is not the `.search` of the compiled pattern')
+        break
+      for comp in resolve_copies(lr, s.value):
+        if not (isinstance(comp, ast.Call) and (dotted(comp.func) or '').endswith('re.compile') and comp.args):
+          bad = (s, 'searches something that is not re.compile(<pattern>)')
+          break
+        flags = [unparse(a) for a in comp.args[1:]] + [unparse(k.value) for k in comp.keywords]
+        if flags not in (['re.I'], ['re.IGNORECASE']):
+          bad = (comp, 'is not compiled with exactly re.I (flags: %s)' % (', '.join(flags) or 'none'))
+          break
+        for pat in resolve_copies(lr, comp.args[0]):
+          if not (isinstance(pat, ast.Call) and isinstance(pat.func, ast.Attribute) and pat.func.attr == 'get' and
+                  any(isinstance(a, ast.Constant) and a.value == 'pattern' for a in pat.args)):
+            bad = (comp, 'does not compile the configured `pattern` option as it is')
+            break
+      if bad:
+        break
+    if bad:
+      rule.violate('rule condition is not the configured pattern', lr, bad[0] if hasattr(bad[0], 'lineno') else c,
+                   'the condition of a pattern rule (`%s`) %s: some metric names are matched differently from '
+                   're.compile(pattern, re.I).search, so they skip their rule and land on a later rule or the default'
+                   % (short(cond if not isinstance(cond, ast.Name) else srcs[0], 60), bad[1]))
+    else:
+      rule.ok('condition = re.compile(<configured pattern>, re.I).search', lr.loc(c))
+  rule.require(n >= 1, 'no pattern rule construction found in loadRelayRules')
+
+
+PARSER_OPTS = {'inline_comment_prefixes', 'comment_prefixes', 'delimiters', 'strict', 'empty_lines_in_values', 'interpolation',
+               'allow_no_value', 'converters', 'default_section', 'dict_type'}
+
+
+def rule_parser_verbatim(check, cx, rule):
+  """option values reach their consumer as written in the file: the ConfigParser that reads the rules / schema files runs with
+  the standard library's default syntax.  Switching on inline comments (`inline_comment_prefixes=(';',)`) cuts every value at
+  ' ;' - a tag pattern such as `;dc=east(;|$)` becomes the empty regex, which matches every metric."""
+  conf = check.repo.module('carbon.conf')
+  hits = []
+  for cls in [c for c in ast.walk(conf.tree) if isinstance(c, ast.ClassDef) and c.name == 'OrderedConfigParser']:
+    for x in ast.walk(cls):
+      if isinstance(x, ast.keyword) and x.arg in PARSER_OPTS:
+        hits.append((x.value, x.arg))
+      elif isinstance(x, ast.Constant) and isinstance(x.value, str) and x.value in PARSER_OPTS:
+        hits.append((x, x.value))
+  for m in check.repo.modules.values():
+    for c in ast.walk(m.tree):
+      if isinstance(c, ast.Call) and (dotted(c.func) or '').split('.')[-1] in ('OrderedConfigParser', 'ConfigParser', 'RawConfigParser', 'SafeConfigParser'):
+        for k in c.keywords:
+          if k.arg in PARSER_OPTS or k.arg is None:
+            hits.append((c, k.arg or '**kwargs'))
+        if len(c.args) > 0 and (dotted(c.func) or '').split('.')[-1] != 'OrderedConfigParser':
+          hits.append((c, 'positional arguments'))
+  if hits:
+    for node, what in hits[:3]:
+      rule.violate('configuration syntax changed', 'carbon.conf:OrderedConfigParser', node, 'the parser of the rules / schema files is '
+                   'created with `%s`: option values are no longer taken as written (an inline-comment prefix cuts `pattern = ;dc=east` '
+                   'to the empty pattern, which matches every metric)' % what, construct='ConfigParser option %s' % what)
+  else:
+    rule.ok('rules / schema files are parsed with the default ConfigParser syntax', 'lib/carbon/conf.py')
